@@ -132,3 +132,20 @@ M("c12.after-all-not-called-after-abort", "C12", RUN, '        self.run_hook("af
 M("c12.before-tags-after-before-hook", "C12", MOD, '            for tag in self.tags:\n                runner.run_hook("before_tag", runner.context, tag)\n            runner.run_hook("before_scenario", runner.context, self)',
   '            runner.run_hook("before_scenario", runner.context, self)\n            for tag in self.tags:\n                runner.run_hook("before_tag", runner.context, tag)')
 M("c12.rule-tag-hook-blames-feature", "C12", RUN, '                    if statement is None:\n                        statement = getattr(context, "rule", None)\n', "")
+
+# ---- C14 -------------------------------------------------------------------
+SUMR = "behave/reporter/summary.py"
+M("c14.outline-rows-not-counted", "C14", SUMR, "        for scenario in scenario_outline.scenarios:\n            self.process_scenario(scenario)",
+  "        for scenario in scenario_outline.scenarios[:1]:\n            self.process_scenario(scenario)")
+M("c14.steps-without-background", "C14", SUMR, "        for step in scenario:\n            self.step_summary[step.status.name] += 1",
+  "        for step in scenario.steps:\n            self.step_summary[step.status.name] += 1")
+M("c14.collector-skipped-steps-not-counted", "C14", "behave/summary.py", "        self.summary_counts.steps.increment(step.status)\n",
+  "        if step.status is not Status.skipped:\n            self.summary_counts.steps.increment(step.status)\n")
+M("c14.reporter-feature-only-for-run", "C14", RUN, "            # -- ALWAYS: Report run/not-run feature to reporters.\n            # REQUIRED-FOR: Summary to keep track of untested features.\n            for reporter in self.config.reporters:\n                reporter.feature(feature)",
+  "            # -- ALWAYS: Report run/not-run feature to reporters.\n            # REQUIRED-FOR: Summary to keep track of untested features.\n            for reporter in self.config.reporters:\n                if run_feature or feature.status.is_final():\n                    reporter.feature(feature)")
+M("c14.rules-counted-as-scenarios", "C14", SUMR, "        self.rule_summary[rule.status.name] += 1", "        self.scenario_summary[rule.status.name] += 1")
+M("c14.errored-list-only-error", "C14", SUMR, "        elif scenario.status.is_error():\n            self.errored_scenarios.append(scenario)",
+  "        elif scenario.status == Status.error:\n            self.errored_scenarios.append(scenario)")
+# (computing the v2/v3 total from the shown parts is equivalent: omitted parts are zero)
+M("c14.v1B-lookup-by-enum-only", "C14", SUMR, "        counts_total = select_status_count(status_counts, Status.passed, 0)", "        counts_total = status_counts.get(Status.passed, 0)")
+M("c14.rule-line-dropped", "C14", SUMR, "        has_rules = (self.rule_summary[\"all\"] > 0)", "        has_rules = (self.rule_summary[\"all\"] > 1)")
